@@ -500,6 +500,32 @@ def rule_r4(chk):
     read = {n.slice.value for n in ast.walk(fp) if isinstance(n, ast.Subscript) and unparse(n.value) == params(fp)[1] and isinstance(n.slice, ast.Constant)}
     for k in written:
         chk.ob("C20-R4", f"simultaneous.main.Simultaneous.portable[{k}]", k in read, f"key {k!r} {'read' if k in read else 'never read'}", sm.loc(fp))
+    # the portable form is meant for JSON (to_portable_file): tuples come back as lists. The variant values are written as
+    # (level, change) tuples and the assignment path tells tuples (level, change) from lists (one value per variant) by type.
+    vm = chk.repo.mod("irispie.simultaneous._variants")
+    vtp = vm.func("Variant.to_portable")
+    chk.saw(vm, "Variant.to_portable")
+    vret = [n for n in walk_no_nested(vtp) if isinstance(n, ast.Return)][0].value
+    writes_tuple = isinstance(vret, ast.DictComp) and isinstance(vret.value, ast.Tuple)
+    am = chk.repo.mod("irispie.simultaneous._assigns")
+    by_type = any(isinstance(n, ast.Call) and dotted(n.func) == "isinstance" and len(n.args) == 2 and unparse(n.args[1]) == "tuple"
+                  for q, f in am.functions() for n in ast.walk(f))
+    calls = [n for n in ast.walk(fp) if isinstance(n, ast.Call) and isinstance(n.func, ast.Attribute) and n.func.attr in ("assign_strict", "assign")]
+    if not calls or not writes_tuple:
+        chk.undecided("C20-R4", "simultaneous.main.Simultaneous.from_portable[variant values survive JSON]",
+                      "variant values are not written as tuples / no assign call recognised", sm.loc(fp))
+    else:
+        arg = calls[0].args[0] if calls[0].args else None
+        retupled = isinstance(arg, ast.DictComp) and isinstance(arg.value, ast.Call) and dotted(arg.value.func) == "tuple"
+        if isinstance(arg, ast.Name):
+            av = [n.value for n in ast.walk(fp) if isinstance(n, ast.Assign) and unparse(n.targets[0]) == arg.id]
+            retupled = any(isinstance(v, ast.DictComp) and isinstance(v.value, ast.Call) and dotted(v.value.func) == "tuple" for v in av)
+        ok = True if (retupled or not by_type) else False
+        chk.ob("C20-R4", "simultaneous.main.Simultaneous.from_portable[variant values survive JSON]", ok,
+               "(level, change) pairs are converted back to tuples before assignment" if retupled else
+               ("assignment does not discriminate tuple from list" if not by_type else
+                "to_portable writes (level, change) tuples, JSON returns lists, and assign reads a list as values for consecutive variants "
+                "(isinstance(value, tuple) in _assigns): the steady-state changes are dropped after to_portable_file/from_portable_file"), sm.loc(calls[0]))
 
 
 VARIANT_PARAMS = ("variant", "variants", "vid", "variant_id")
@@ -539,12 +565,70 @@ def rule_r5(chk):
                 chk.saw(m, q)
 
 
+def rule_r7(chk):
+    chk.rule("C20-R7", "derived state follows the state it is derived from: a copy / unpickled Invariant rebuilds its derived slots from the "
+             "serialized ones, so any store into a serialized slot that _populate_derived_attributes reads (quantities, equations, "
+             "context), made after construction, is followed in the same function by a rebuild on the same object - otherwise the "
+             "original keeps stale descriptors and differs from its own copy", floor=2)
+    im = chk.repo.mod("irispie.simultaneous._invariants")
+    ser = [literal(e) for e in im.class_attr("Invariant", "_serialized_slots").elts]
+    pd = im.func("Invariant._populate_derived_attributes")
+    chk.saw(im, "Invariant._populate_derived_attributes")
+    reads = set()
+    work, seen = [pd], set()
+    while work:
+        fn = work.pop()
+        if id(fn) in seen:
+            continue
+        seen.add(id(fn))
+        for n in ast.walk(fn):
+            if isinstance(n, ast.Attribute) and isinstance(n.value, ast.Name) and n.value.id in ("self", params(fn)[0] if params(fn) else "self") and isinstance(n.ctx, ast.Load):
+                reads.add(n.attr)
+            if isinstance(n, ast.Call):
+                d = dotted(n.func)
+                if d and im.has(d) and any(unparse(a) == "self" for a in n.args):
+                    work.append(im.func(d))
+    deps = sorted(set(ser) & reads)
+    chk.ob("C20-R7", "simultaneous._invariants.Invariant[inputs of the derived slots]", bool(deps), f"derived slots are computed from {deps}", im.loc(pd))
+    constructors = ("__init__", "__setstate__", "from_source", "from_portable", "__new__", "copy", "__deepcopy__")
+    n_sites = 0
+    for m in chk.repo.modules.values():
+        if not m.name.startswith("irispie.simultaneous"):
+            continue
+        for q, f in m.functions():
+            in_invariant = m is im and q.startswith("Invariant.")
+            if in_invariant and q.split(".")[-1] in constructors:
+                continue
+            for n in walk_no_nested(f):
+                ts = n.targets if isinstance(n, ast.Assign) else [n.target] if isinstance(n, ast.AugAssign) else []
+                for t in ts:
+                    if not (isinstance(t, ast.Attribute) and t.attr in deps):
+                        continue
+                    owner = unparse(t.value)
+                    if not (owner.endswith("._invariant") or (in_invariant and owner == "self")):
+                        continue
+                    n_sites += 1
+                    rebuilt = any(isinstance(c, ast.Call) and unparse(c.func) == f"{owner}._populate_derived_attributes" and c.lineno >= n.lineno
+                                  for c in walk_no_nested(f))
+                    chk.saw(m, q)
+                    chk.ob("C20-R7", f"{m.name.replace('irispie.', '')}.{q}[{owner}.{t.attr}]", rebuilt,
+                           f"assigns {owner}.{t.attr} and then calls {owner}._populate_derived_attributes()" if rebuilt else
+                           f"assigns {owner}.{t.attr} (an input of the descriptors/equators) without rebuilding them: the model keeps the old derived "
+                           "state while its copy or pickle rebuilds it from the new value", m.loc(n))
+    if n_sites == 0:
+        chk.ok("C20-R7", "simultaneous[stores into derived-slot inputs after construction]", "none", im.rel)
+
+
 def run(chk):
     rule_r1(chk)
     rule_r2(chk)
     rule_r3(chk)
     rule_r4(chk)
     rule_r5(chk)
+    rule_r7(chk)
+    from .. import gens
+    gens.apply(chk, "C20-R6", {"simultaneous", "sequentials", "red_vars", "has_variants", "quantities", "equations", "attributes", "stackers"}, 15,
+               "a generator consumed inside the loop over variants serves variant 0 only")
     chk.assumptions = [
         "ndarray.copy / dict.copy of scalars / deepcopy produce independent values",
         "behavioural equivalence of a copy (steady state, solution, simulation) is numerical and not decided",
